@@ -150,7 +150,24 @@ func genRepl(prop string, seed uint64, tier string) *Scenario {
 		}
 		body.HoldbackMs = 300 + r.Intn(5000)
 	}
-	// drawn from a generator of its own (added later)
+	// drawn from a generator of its own (added later): a follower is restarted on its directory into
+	// a burst (what it has to catch up with spans several log rotations), and restarted once more
+	// later (whatever its log lost in between shows then)
+	restartIntoBurst := false
+	if rb := ssched.Sub(seed, "restart-into-burst"); !body.NewHistory && rb.Intn(5) == 0 {
+		restartIntoBurst = true
+		fi := rb.Intn(len(body.Followers))
+		fs := &body.Followers[fi]
+		t := fs.JoinMs + 800 + rb.Intn(3000)
+		o1 := FollowerOutage{AtMs: t, DownMs: 300 + rb.Intn(2500)}
+		back := o1.AtMs + o1.DownMs
+		o2 := FollowerOutage{AtMs: back + 1500 + rb.Intn(4000), DownMs: 200 + rb.Intn(2000)}
+		fs.Outages = []FollowerOutage{o1, o2}
+		body.BurstAtMs, body.BurstOps = back-rb.Intn(500), 150+rb.Intn(350)
+		if body.BurstAtMs < 0 {
+			body.BurstAtMs = 0
+		}
+	}
 	if bg := ssched.Sub(seed, "bigval"); body.BurstOps > 0 && bg.Intn(2) == 0 {
 		body.BurstBigEvery = 2 + bg.Intn(12)
 		body.BurstBigSize = []int{4000, 4033, 4100, 6000, 9000, 20000}[bg.Intn(6)]
@@ -160,6 +177,15 @@ func genRepl(prop string, seed uint64, tier string) *Scenario {
 	k.AofFileBufferSize = []uint{64, 256, 1024, 4096}[r.Intn(4)]
 	k.AofFileRewriteSize = []uint{1024, 4096, 1 << 20, 1 << 20}[r.Intn(4)]
 	k.AofRingBufferSize = []uint{64, 256, 1024, 4096, 65536}[r.Intn(5)]
+	if restartIntoBurst {
+		// the follower resumes from its position (the leader's buffer still holds it) and the burst
+		// rotates the log several times
+		kr := ssched.Sub(seed, "restart-into-burst-knobs")
+		k.AofFileRewriteSize = []uint{1024, 2048, 4096}[kr.Intn(3)]
+		if kr.Intn(4) > 0 {
+			k.AofRingBufferSize = 65536
+		}
+	}
 	k.DBLockAofTime = uint(r.Intn(2))
 	sc := &Scenario{Knobs: k, Sched: genSched(r, seed), Body: raw, MaxSimS: 6000}
 	if r.Intn(3) == 0 {
